@@ -158,10 +158,11 @@ fn rand_bytes4(rng: &mut Rng, i: usize) -> [u8; 4] {
     if (37..=39).contains(&i) && rng.chance(1, 2) {
         return rng.pick(&F32_BITS).to_le_bytes();
     }
-    match rng.below(6) {
+    match rng.below(7) {
         0 => [0, 0, 0, 0],
         1 => [0xFF, 0xFF, 0xFF, 0xFF],
         2 => [1, 2, 3, 4],
+        3 => [0, 0, 0, 0x80],
         _ => {
             let b = rng.bytes(4);
             [b[0], b[1], b[2], b[3]]
@@ -322,6 +323,57 @@ pub fn gen(seed: u64, tier: &str) -> Vec<String> {
             }
         }
         planted(&mut rng, &mut lines, (k * 5 + 2) % 34, long.clone());
+    }
+    // code points outside the sub-codec that real Shift-JIS may encode (model: correspondence skip)
+    for (k, c) in super::aset::FOREIGN.iter().enumerate() {
+        for position in [k, 12 + k, 28 + k] {
+            let placement = rng.below(4) as usize;
+            let bad = super::aset::plant(&mut rng, c, placement);
+            planted(&mut rng, &mut lines, position, bad);
+        }
+    }
+    // binaries whose only string is one empty string (the pool is a single terminator byte), in
+    // every position of the first / last of 1..=3 records; and no string at all
+    for n in 1..=3usize {
+        let blank: Vec<AssetSpec> = (0..n).map(|_| make_spec(&mut rng, &|_| false)).map(|mut s| { s.name = None; s }).collect();
+        push(&mut lines, 0, &blank);
+        for position in 0..=33usize {
+            if thorough || position % 4 == n % 4 || position == 0 || position >= 31 {
+                for which in [0, n - 1] {
+                    let mut specs = blank.clone();
+                    if position == 0 {
+                        specs[which].name = Some(String::new());
+                    } else {
+                        *str_field(&mut specs[which], position) = Some(String::new());
+                    }
+                    push(&mut lines, 0x8000_0000, &specs);
+                }
+            }
+        }
+    }
+    // every string length 0..=130 (encoded bytes): quick rotates the position with the length,
+    // thorough sweeps every position x every length
+    for k in 0..=130usize {
+        for position in 0..=33usize {
+            if thorough || position == (k * 7) % 34 {
+                let mut spec = make_spec(&mut rng, &|i| i == 1 + (k % 33) && false);
+                spec.name = None;
+                let v = super::aset::sized_name(&mut rng, k);
+                if position == 0 {
+                    spec.name = Some(v);
+                } else {
+                    *str_field(&mut spec, position) = Some(v);
+                }
+                push(&mut lines, k as u32, &[spec]);
+            }
+        }
+    }
+    // numbers of records at the count thresholds
+    for n in super::aset::COUNTS.iter() {
+        let specs: Vec<AssetSpec> = (0..*n)
+            .map(|i| make_spec(&mut rng, &|k| k == 1 + (i * 5) % 51))
+            .collect();
+        push(&mut lines, *n as u32, &specs);
     }
     // many records / many strings (counts beyond 2^8; thorough: beyond 2^10 pointers)
     {
